@@ -16,8 +16,7 @@ package html
 //@ assume func search.ArrayPositions.Equals(ap, other)
 //@   pure
 
-// a fragment of its stored value; a location is a (possibly empty) range Start <= End
-//@ spec fragOK(f *highlight.Fragment) bool = f != nil && 0 <= f.Start && f.Start <= f.End && f.End <= len(f.Orig)
+// (fragOK: a fragment of its stored value, package highlight); a location is a range Start <= End
 //@ func FragmentFormatter.Format
 //@   props C19
 //@   mode int
